@@ -15,6 +15,7 @@
 svalue_t catch_value = { .type = T_NUMBER };
 
 static error_context_t *current_error_context = 0;
+static volatile int in_mudlib_error_handler;	/* defined below; saved and restored with the context */
 
 /**
  * @brief Save the current virtual machine execution context as current error
@@ -52,6 +53,7 @@ int save_context (error_context_t * econ) {
   econ->save_num_objects_this_thread = get_load_object_limits ();
   econ->save_illegal_sentence_action = illegal_sentence_action;
   econ->save_last_verb = last_verb;
+  econ->save_in_mudlib_error_handler = in_mudlib_error_handler;
   econ->save_sp = sp;           /* stack pointer */
   econ->save_csp = csp;         /* control stack pointer */
   econ->save_context = current_error_context;
@@ -110,6 +112,7 @@ void restore_context (error_context_t * econ) {
   set_load_object_limits (econ->save_num_objects_this_thread);
   illegal_sentence_action = econ->save_illegal_sentence_action;
   last_verb = econ->save_last_verb;
+  in_mudlib_error_handler = econ->save_in_mudlib_error_handler;
   DEBUG_CHECK (csp < econ->save_csp, "csp is below econ->csp before unwinding.\n");
   if (csp > econ->save_csp)
     {
